@@ -12,9 +12,12 @@ GEN_MODULES = ['excelutil', 'aggregates', 'stats']
 ASSUMPTIONS = [
     "the theorems (coq/Props/C05.v) are corollaries of the C01 machine: evaluation order and repetition "
     "cannot change a value because every evaluate returns the from-scratch specification",
-    "access through unbounded ranges (A:A, 1:1), address lists and sheet-less addresses is judged on the "
-    "implementation by the oracle only (the clipping to the used area is openpyxl/excelwrapper code that "
-    "is not modelled)",
+    "address lists / tuples / generators are modelled by coq/Model/C05List.v evaluate_list (the left-to-right "
+    "fold of evaluate of _evaluate_non_iterative; theorems C05_list_path, C05_same_members, C05_permutation; "
+    "stream list-model compares it with the implementation); the reference node of an unbounded range is "
+    "covered by C05_unbounded_path given WHICH bounded range it stands for - the clipping of A:A / 1:1 to the "
+    "used area (openpyxl/excelwrapper code) and the resolution of a sheet-less address against the active sheet "
+    "are not modelled and are judged on the implementation by the oracle only",
     "CSE array formulas, tables / structured references, formulas returning a reference (OFFSET, INDIRECT) and "
     "range operations (intersection, computed corners), sheet names that need quotes and merged areas are outside "
     "the machine (the reference cell of a whole-column range is inside it in the order-colb stream only: a node of "
